@@ -175,7 +175,10 @@ def _exp_cap(base_s: float, factor: float, attempt: int, max_s: float) -> float:
     if base_s <= 0.0:
         return min(max_s, 0.0)
     try:
-        return min(max_s, base_s * factor**attempt)
+        cap = min(max_s, base_s * factor**attempt)
+        if math.isfinite(cap):
+            return cap
+        # max_s=inf and the product (not the power) overflowed to inf: saturate below.
     except OverflowError:
         pass
     # factor**attempt is beyond float range: decide in the log domain instead.
